@@ -60,18 +60,20 @@ class ParCase:
     """A collection with purely symbolic joint blocks (unless a stratum says otherwise) and value dicts."""
 
     def __init__(self, rng, stratum):
-        for _ in range(30):
+        for attempt in range(2000):
             ref = R.gen_collection(rng, allow_numeric=False)
             joint = [b for b in ref.blocks if len(b) >= 2]
             if not joint:
                 continue
             if stratum == "shared-symbol" and not any(len(b) >= 3 for b in joint):
                 continue
-            if not any(ref.level[n] != "RUV" for n in ref.names()) or \
-                    not any(ref.level[n] == "RUV" for n in ref.names()):
+            if attempt < 30 and (not any(ref.level[n] != "RUV" for n in ref.names()) or
+                                 not any(ref.level[n] == "RUV" for n in ref.names())):
                 if rng.random() < 0.9:
                     continue
             break
+        else:
+            raise RuntimeError("generator could not produce a collection for stratum " + stratum)
         for n in ref.names():
             ref.mean[n] = R.ZERO
         self.ref = ref
